@@ -43,11 +43,20 @@ def showFiles (tag : String) (l : List (Key × Tahoe.Base.File.File)) : String :
   showList ((sortBy (fun a b => keyLt a.1 b.1) l).map
     (fun e => s!"{tag}.{e.1.1}.{e.1.2}={hexOfBytes e.2}"))
 
+/-- the `free` field of an `A` token: plain bytes, or `<f_bavail>x<f_frsize>x<f_bsize>` (a statvfs
+    record; the model's disk-stats step `freeBytes` turns it into bytes) -/
+def parseFree (t : String) : Option Nat :=
+  match t.splitOn "x" with
+  | [n] => n.toNat?
+  | [ba, fr, bs] => do
+    pure (freeBytes { frsize := (← fr.toNat?), bsize := (← bs.toNat?), blocks := 0, bfree := (← ba.toNat?), bavail := (← ba.toNat?) })
+  | _ => none
+
 def stepOp (s : Server) (op : String) : Option (Server × String) :=
   match op.splitOn ":" with
   | ["A", si, shs, size, rec, free, order] => do
     let r := allocate s (← si.toNat?) (← parseNatList shs) (← size.toNat?) (← bytesOfHex rec)
-                (← free.toNat?) (← parseNatList order)
+                (← parseFree free) (← parseNatList order)
     match r.2 with
     | .ok o =>
       let al := showList ((sortBy (fun a b => decide (a < b)) o.already).map toString)
@@ -57,7 +66,7 @@ def stepOp (s : Server) (op : String) : Option (Server × String) :=
     | .error _ => pure (r.1, "StructError")
   | ["A", si, shs, size, rec, free, order, conn] => do
     let r := allocateConn s (← conn.toNat?) (← si.toNat?) (← parseNatList shs) (← size.toNat?) (← bytesOfHex rec)
-                (← free.toNat?) (← parseNatList order)
+                (← parseFree free) (← parseNatList order)
     match r.2 with
     | .ok o =>
       let al := showList ((sortBy (fun a b => decide (a < b)) o.already).map toString)
@@ -116,10 +125,10 @@ def parseFOp (s : Server) (op : String) : Option (List FOp) :=
       (match (writeOp s wid off d).2 with | .ok true => [.direct (.close wid)] | _ => []))
   | ["A", si, shs, size, rec, free, order] => do
     pure ([.direct (.alloc (← si.toNat?) (← parseNatList shs) (← size.toNat?) (← bytesOfHex rec)
-      (← free.toNat?) (← parseNatList order))])
+      (← parseFree free) (← parseNatList order))])
   | ["A", si, shs, size, rec, free, order, conn] => do
     pure ([.allocConn (← conn.toNat?) (← si.toNat?) (← parseNatList shs) (← size.toNat?) (← bytesOfHex rec)
-      (← free.toNat?) (← parseNatList order)])
+      (← parseFree free) (← parseNatList order)])
   | ["K", conn] => do pure [.disconnect (← conn.toNat?)]
   | ["W", wid, off, d] => do pure [.direct (.write (← wid.toNat?) (← off.toNat?) (← bytesOfHex d))]
   | ["C", wid] => do pure [.direct (.close (← wid.toNat?))]
